@@ -155,7 +155,8 @@ C05Scn(p) ==
 ---------------------------------------------------------------------------
 (* C11: refresh histories against provider policies *)
 Policies == {"noRotate", "rotate", "rotateSometimes", "omitId", "omitAt", "omitExp", "omitAll", "keyChange", "failBefore", "failAfter",
-             "badSig", "badAud", "http400", "garbageId", "foreignNonce", "failAfter503", "dropAfter", "dropBefore", "shorterLifetime", "clockAhead"}
+             "badSig", "badAud", "http400", "garbageId", "foreignNonce", "failAfter503", "dropAfter", "dropBefore", "shorterLifetime", "clockAhead",
+             "omitIdKeyRetired"}
 C11Space == [pol : Policies, n : IF Quick THEN {1, 3} ELSE 1..6, fwd : BOOLEAN, store : {"memory", "redis"}]
 
 PolAns(pol, i) ==
@@ -167,6 +168,9 @@ PolAns(pol, i) ==
     [] pol = "omitExp" -> NoExp([Ans0 EXCEPT !.rotate = TRUE])
     [] pol = "omitAll" -> NoExp([Ans0 EXCEPT !.omitAt = TRUE, !.omitId = (i % 2 = 0)])
     [] pol = "keyChange" -> [Ans0 EXCEPT !.id = "goodK3", !.keySet = "k3", !.rotate = TRUE]
+    \* the provider retired the key that signed the session's ID token and (as it may) sends no new ID token with the refresh:
+    \* the merged result keeps a token that no longer verifies
+    [] pol = "omitIdKeyRetired" -> [Ans0 EXCEPT !.omitId = TRUE, !.keySet = "k3", !.rotate = TRUE]
     [] pol = "failBefore" -> [Ans0 EXCEPT !.mode = "fail-before"]
     [] pol = "failAfter" -> [Ans0 EXCEPT !.mode = "fail-after", !.rotate = TRUE]
     [] pol = "failAfter503" -> [Ans0 EXCEPT !.mode = "fail-after:503", !.rotate = TRUE]
@@ -180,7 +184,7 @@ PolAns(pol, i) ==
     [] pol = "garbageId" -> [Ans0 EXCEPT !.id = "garbage", !.rotate = TRUE]
     [] pol = "foreignNonce" -> [Ans0 EXCEPT !.rfNonce = "foreign"]
 
-Failing == {"failBefore", "failAfter", "badSig", "badAud", "http400", "failAfter503", "dropAfter", "dropBefore"}
+Failing == {"failBefore", "failAfter", "badSig", "badAud", "http400", "failAfter503", "dropAfter", "dropBefore", "omitIdKeyRetired"}
 
 RECURSIVE Rounds(_, _, _)
 Rounds(pol, i, n) ==
